@@ -1050,6 +1050,66 @@ def stream_domain(ck: Check, ops, expect):
 
 
 # ------------------------------------------------------------------ driver
+def stream_float_bounds(ck: Check) -> None:
+    """Implementation-only oracle (no model: the Lean CSV model has integer cells): PackingResult / PackingStatistics
+    declare objective values and bounds as `int | float`; a user-defined objective has float bounds and, by moptipy's
+    default, an INFINITE upper bound.  from_csv(to_csv(rs)) must return the same bounds for such records too
+    (found missing by seeded change C19-csv-bounds-int-parse)."""
+    import math
+    from moptipy.evaluation.end_results import EndResult
+    from moptipyapps.binpacking2d import packing_result as pr
+    from moptipyapps.binpacking2d import packing_statistics as ps
+    from moptipyapps.binpacking2d.packing_result import PackingResult
+    rng = ck.rng
+    d = ck.work / "csvf"
+    d.mkdir(exist_ok=True)
+    for k in range(6 if ck.quick else 40):
+        objs = ["binCount", "userObj"] + (["zz"] if rng.random() < 0.5 else [])
+        ubs = {"userObj": rng.choice([math.inf, 99.5, 1e300]), "zz": rng.choice([math.inf, 7, 0.75])}
+        lbs = {"userObj": rng.choice([0.0, 0.5, -3.25]), "zz": rng.choice([0, 0.125])}
+        rs = []
+        for a in range(rng.randint(1, 2)):
+            for sd in range(rng.randint(1, 3)):
+                bins = rng.randint(2, 9)
+                vals = {"binCount": bins}
+                bounds = {"binCount.lowerBound": 1, "binCount.upperBound": 20}
+                for o in objs[1:]:
+                    vals[o] = lbs[o] + rng.choice([0, 1, 2.5])
+                    bounds[o + ".lowerBound"], bounds[o + ".upperBound"] = lbs[o], max(ubs[o], vals[o])
+                tf = rng.randint(5, 100)
+                er = EndResult(f"algo{a}", "inst1", "binCount", "ibf1", 1000 + 17 * sd + a, bins, rng.randint(1, tf), 3, tf, 9,
+                               None, rng.choice([None, tf]) if a else tf, None)
+                rs.append(PackingResult(er, 12, 4, 30, 20, vals, bounds, {"bins.lowerBound": 1, "bins.lowerBound.geometric": 1}))
+        ctx = {"objective_bounds": [dict(r.objective_bounds) for r in rs[:3]]}
+        path = str(d / f"f{k % 10}.csv")
+        ck.count("csvR_float_bounds")
+        try:
+            pr.to_csv(rs, path)
+            back = list(pr.from_csv(path))
+            key = lambda r: (r.end_result.algorithm, r.end_result.rand_seed)   # noqa: E731
+            same = len(back) == len(rs) and all(
+                dict(a.objective_bounds) == dict(b.objective_bounds) and dict(a.objectives) == dict(b.objectives)
+                for a, b in zip(sorted(rs, key=key), sorted(back, key=key)))    # numeric equality: 3.0 == 3, inf == inf
+            ck.spec(same, "csv_float_bounds",
+                    "objective values/bounds (float, inf) differ after the CSV round trip of packing results", ctx)
+        except ERRS as e:
+            ck.spec(False, "csv_float_bounds", f"packing results with float/inf objective bounds: {type(e).__name__}: {e}", ctx)
+            continue
+        try:
+            st = []
+            ps.from_packing_results(rs, st.append)
+            spath = str(d / f"s{k % 10}.csv")
+            ps.to_csv(st, spath)
+            sback = list(ps.from_csv(spath))
+            skey = lambda r: (r.end_statistics.algorithm, r.end_statistics.instance)   # noqa: E731
+            ssame = len(sback) == len(st) and all(dict(a.objective_bounds) == dict(b.objective_bounds)
+                                                  for a, b in zip(sorted(st, key=skey), sorted(sback, key=skey)))
+            ck.spec(ssame, "csv_float_bounds",
+                    "objective bounds (float, inf) differ after the CSV round trip of packing statistics", ctx)
+        except ERRS as e:
+            ck.spec(False, "csv_float_bounds", f"packing statistics with float/inf objective bounds: {type(e).__name__}: {e}", ctx)
+
+
 def streams(ck: Check) -> None:
     import traceback
     ops, expect = [], []
@@ -1075,6 +1135,7 @@ def streams(ck: Check) -> None:
     guarded("results", lambda: stream_results(ck, ops, expect, real))
     guarded("statistics", lambda: stream_statistics(ck, ops, expect, real))
     guarded("domain", lambda: stream_domain(ck, ops, expect))
+    guarded("float_bounds", lambda: stream_float_bounds(ck))
     outs = ck.model(ops)
     for (kind, stream, line, iout, ctx), mout in zip(expect, outs):
         short = line if len(line) < 300 else line[:300] + "…"
